@@ -87,7 +87,10 @@ class YamlInterface(FileInterface):
 
     def save(self, filename: str, data: dict) -> None:   # pragma: no cover
         """Save config to yaml file."""
+        # use a fresh dumper for every save. a dump which fails half way (e.g. disk full) leaves its dumper bound to
+        # the broken stream and every later dump with it would fail as well
+        dumper = yaml.YAML(typ='safe')
+        dumper.default_flow_style = False
+        dumper.line_break = ''
         with open(filename, 'w', encoding='utf8') as output_file:
-            _yaml.default_flow_style = False
-            _yaml.line_break = ''
-            _yaml.dump(data, output_file)
+            dumper.dump(data, output_file)
